@@ -364,3 +364,20 @@ pub fn observe(ont: &Ontology) -> Expected {
     e.defaults = e.has_roots();
     e
 }
+
+/// Differences between two observed ontologies (iteration order is not part of an observation).
+pub fn observe_diff(a: &Expected, b: &Expected) -> Vec<String> {
+    let mut d = vec![];
+    if a.terms != b.terms {
+        d.push(format!("terms differ: {:?} vs {:?}", a.terms, b.terms));
+    }
+    for k in 0..3 {
+        let x: Vec<(u32, String, Vec<u32>)> = a.recs[k].iter().map(|(i, r)| (*i, r.name.clone(), r.hpos.iter().copied().collect())).collect();
+        let y: Vec<(u32, String, Vec<u32>)> = b.recs[k].iter().map(|(i, r)| (*i, r.name.clone(), r.hpos.iter().copied().collect())).collect();
+        if x != y {
+            d.push(format!("{} records differ: {:?} vs {:?}", KINDS[k].name(), x, y));
+        }
+    }
+    d
+}
+
